@@ -951,7 +951,7 @@ def bounded_codecs(tier):
 
 
 def extra_checks(tier, seed):
-    return {'bounded': [bounded_codecs(tier)], 'lemmas': [scan_request_handlers()] + codec_lemmas()}
+    return {'bounded': [bounded_codecs(tier)], 'lemmas': [scan_request_handlers(), scan_error_encoders()] + codec_lemmas()}
 
 
 # ------------------------------------------------------------------------------------------------ framing / loop
@@ -1328,6 +1328,7 @@ def _mk_decoder(name, post, returns, stubs=None, raises=None, **kw):
         inline=dict(PACKET_INLINE, **kw.pop('inline', {})), truthy=PACKET_TRUTHY, stubs=stubs or {},
         requires=lambda c: z3.And(packet_wf(c, c.argv('packet')), c.old('_version') >= 3, c.old('_version') <= 6),
         ensures=[('body-layout', post)], returns=returns,
+        modifies=[],      # a reply decoder changes nothing of the handler (frame obligations are generated for this)
         # a body that is too short, or (before v6) too long, is malformed
         raises=raises or {'PacketDecodeError': True}, **kw)
     DECODER_SPECS[name] = sp
@@ -1523,6 +1524,71 @@ def scan_request_handlers():
     return {'name': 'C14.sftp.SFTPServerHandler._process_*#scan(callbacks-only-after-the-whole-body-is-decoded)',
             'verdict': 'proved' if n and not problems else 'refuted', 'backend': 'AST scan', 'detail': problems[:10],
             'handlers': n, 'replayed': False}
+
+
+# ------------------------------------------------------------------------------------------------ error-specific data
+# A status reply carries exactly the fields the negotiated version defines for the code actually sent: uint32 code,
+# string message, string language tag (filexfer-02 s7 .. -13 s9.1) and - only for SSH_FX_UNKNOWN_PRINCIPAL, which
+# exists from v5 on - the list of unknown names (filexfer-05 s8 / -13 s9.1).  _process_packet above represents a
+# handler's SFTPError by the base class, i.e. assumes SFTPError.encode is what runs; the scan lemma below shows that
+# SFTPUnknownPrincipal is the only subclass overriding encode, and this contract covers it.
+enc_names = z3.Function('sftp_unknown_names_enc', z3.SeqSort(StrS), BytesS)
+
+
+def unknown_names_join_stub(cx):
+    """b''.join(String(name) for name in self.unknown_names): the concatenated strings (uninterpreted in the list;
+    definitional: empty list -> empty bytes, every string contributes at least its 4 length bytes)"""
+    names = cx.selff('unknown_names')
+    r = cx.fresh('bytes', 'names_enc')
+    return [Out(ret=r, assume=[r.z == enc_names(names.z), z3.Length(enc_names(names.z)) >= 4 * z3.Length(names.z),
+                               enc_names(z3.Empty(z3.SeqSort(StrS))) == z3.Empty(BytesS)])]
+
+
+unknown_names_join_stub.modifies = ()
+
+
+def super_stub(cx):
+    return [Out(ret=cx.ex.self_ref)]
+
+
+super_stub.modifies = ()
+super_stub.pure = True
+
+
+def _mk_unknown_principal_encode(v):
+    def post(c):
+        sent = wire_code(c.old('code'), z3.IntVal(v))
+        body = z3.Concat(be4(sent), _sstr(c.old('reason')), _sstr(c.old('lang')))
+        extra = enc_names(c.old('unknown_names'))
+        return c.result == z3.If(sent == FX_UNKNOWN_PRINCIPAL, z3.Concat(body, extra), body)
+    sp = Spec(
+        PROP, 'sftp', 'SFTPUnknownPrincipal.encode', self_class='SFTPUnknownPrincipal', params=dict(version='int'),
+        classes={'SFTPUnknownPrincipal': {'code': 'int', 'reason': 'str', 'lang': 'str', 'unknown_names': 'seq[str]'}},
+        stubs={'super': super_stub, "b''.join": unknown_names_join_stub},
+        inline={'super().encode': ('sftp', 'SFTPError.encode')},
+        # the code this class passes to SFTPError.__init__ (read from its source)
+        requires=lambda c: c.old('code') == error_code_of('SFTPUnknownPrincipal'),
+        ensures=[('status body has exactly the fields version v defines for the code sent', post)],
+        raises={}, cases=[(f'v{v}', {'arg:version': v})])
+    sp.no_replay = True
+    return sp
+
+
+unknown_principal_encode = [_mk_unknown_principal_encode(_v) for _v in (3, 4, 5, 6)]
+
+
+def scan_error_encoders():
+    """SFTPError subclasses that override encode(): each must be under contract (the others inherit SFTPError.encode,
+    which is what _process_packet executes for a handler's SFTPError)"""
+    mod = extract.get_module('sftp')
+    covered = {'SFTPError', 'SFTPUnknownPrincipal'}
+    over = [name for name, node in mod.classes.items()
+            if extract.is_subclass(name, 'SFTPError') and
+            any(isinstance(n, ast.FunctionDef) and n.name == 'encode' for n in node.body)]
+    stray = sorted(set(over) - covered)
+    return {'name': 'C14.sftp.SFTPError#scan(every-subclass-overriding-encode-is-under-contract)',
+            'verdict': 'proved' if not stray else 'refuted', 'backend': 'AST scan', 'detail': stray,
+            'overriding': sorted(over), 'replayed': False}
 
 
 # codec contracts (SFTPLimits / SFTPVFSAttrs / SFTPName / SFTPAttrs encode + decode against enc_spec) live in a
